@@ -777,6 +777,127 @@ func isGeneratedFile(w *World, p *packages.Package, pos token.Pos) bool {
 	return false
 }
 
+// tableBoundedIndex: a[i] with a an array (or a read-only package-level list
+// literal) and i a local variable every assignment of which gives it a
+// constant or an entry of a read-only package-level table of constants, all
+// of them (and the zero value a missing key yields) within the bounds of a.
+func tableBoundedIndex(w *World, p *packages.Package, fd *ast.FuncDecl, ix *ast.IndexExpr) bool {
+	id, ok := ast.Unparen(ix.Index).(*ast.Ident)
+	if !ok {
+		return false
+	}
+	v, ok := p.TypesInfo.Uses[id].(*types.Var)
+	if !ok || v.Parent() == nil || v.Parent() == v.Pkg().Scope() || v.IsField() {
+		return false
+	}
+	// length of what is indexed
+	n := int64(-1)
+	switch t := p.TypesInfo.TypeOf(ix.X).Underlying().(type) {
+	case *types.Array:
+		n = t.Len()
+	case *types.Slice:
+		if xid, isId := ast.Unparen(ix.X).(*ast.Ident); isId {
+			if xv, isV := p.TypesInfo.Uses[xid].(*types.Var); isV && xv.Parent() == xv.Pkg().Scope() && w.readOnlyTable(xv) {
+				if init, _ := w.VarInit(xv); init != nil {
+					if cl, isLit := ast.Unparen(init).(*ast.CompositeLit); isLit {
+						n = int64(len(cl.Elts))
+						for _, el := range cl.Elts {
+							if _, keyed := el.(*ast.KeyValueExpr); keyed {
+								n = -1
+							}
+						}
+					}
+				}
+			}
+		}
+	}
+	if n < 0 {
+		return false
+	}
+	inRange := func(c constant.Value) bool {
+		if c == nil {
+			return false
+		}
+		iv, exact := constant.Int64Val(constant.ToInt(c))
+		return exact && iv >= 0 && iv < n
+	}
+	valueOK := func(e ast.Expr) bool {
+		if c := ConstOf(p, e); c != nil {
+			return inRange(c)
+		}
+		tix, isIx := ast.Unparen(e).(*ast.IndexExpr)
+		if !isIx {
+			return false
+		}
+		tid, isId := ast.Unparen(tix.X).(*ast.Ident)
+		if !isId {
+			return false
+		}
+		tv, isV := p.TypesInfo.Uses[tid].(*types.Var)
+		if !isV || tv.Parent() != tv.Pkg().Scope() || !w.readOnlyTable(tv) {
+			return false
+		}
+		if _, isMap := tv.Type().Underlying().(*types.Map); !isMap {
+			return false
+		}
+		init, ip := w.VarInit(tv)
+		cl, isLit := ast.Unparen(init).(*ast.CompositeLit)
+		if !isLit || n < 1 { // a missing key yields 0
+			return false
+		}
+		for _, el := range cl.Elts {
+			kv, isKV := el.(*ast.KeyValueExpr)
+			if !isKV || !inRange(ConstOf(ip, kv.Value)) {
+				return false
+			}
+		}
+		return true
+	}
+	defs, ok2 := 0, true
+	ast.Inspect(fd.Body, func(x ast.Node) bool {
+		switch y := x.(type) {
+		case *ast.AssignStmt:
+			for i, l := range y.Lhs {
+				lid, isId := l.(*ast.Ident)
+				if !isId || (p.TypesInfo.Defs[lid] != types.Object(v) && p.TypesInfo.Uses[lid] != types.Object(v)) {
+					continue
+				}
+				defs++
+				switch {
+				case y.Tok != token.ASSIGN && y.Tok != token.DEFINE:
+					ok2 = false
+				case len(y.Rhs) == len(y.Lhs):
+					if !valueOK(y.Rhs[i]) {
+						ok2 = false
+					}
+				case len(y.Rhs) == 1 && i == 0:
+					if !valueOK(y.Rhs[0]) { // v, ok := table[k]
+						ok2 = false
+					}
+				default:
+					ok2 = false
+				}
+			}
+		case *ast.IncDecStmt:
+			if lid, isId := y.X.(*ast.Ident); isId && p.TypesInfo.Uses[lid] == types.Object(v) {
+				ok2 = false
+			}
+		case *ast.UnaryExpr:
+			if lid, isId := y.X.(*ast.Ident); isId && y.Op == token.AND && p.TypesInfo.Uses[lid] == types.Object(v) {
+				ok2 = false
+			}
+		case *ast.RangeStmt:
+			for _, e := range []ast.Expr{y.Key, y.Value} {
+				if lid, isId := e.(*ast.Ident); isId && (p.TypesInfo.Defs[lid] == types.Object(v) || p.TypesInfo.Uses[lid] == types.Object(v)) {
+					ok2 = false
+				}
+			}
+		}
+		return true
+	})
+	return ok2 && defs > 0
+}
+
 func c05CompilePanics(w *World, r *Report) {
 	scanPanicObligations(w, r, "R05.5", compileCone(w), c05Reviewed, false, "reachable from a machine constructor", "a crafted expression may panic the compiler")
 }
@@ -888,6 +1009,11 @@ func scanPanicObligations(w *World, r *Report, rule string, cone map[*types.Func
 					r.OK(rule, c, expr.Pos(), kind+": in bounds on every path (bounds check eliminated by the compiler's prove pass)")
 					return true
 				}
+			}
+			// an index that only ever holds constants and values of read-only literal tables, all within the array
+			if kind == "index" && tableBoundedIndex(w, p, fd, expr.(*ast.IndexExpr)) {
+				r.OK(rule, c, expr.Pos(), kind+": the index variable only takes constants and entries of a read-only table, all within the array's length")
+				return true
 			}
 			// range-loop index pattern
 			if kind == "index" && rangeIndexSafe(p, fd, expr.(*ast.IndexExpr)) {
@@ -1227,7 +1353,7 @@ func runeLoops(w *World, f *ssa.Function, ctx *symCtx, runeOf func(v ssa.Value) 
 			case *ssa.Next:
 				ranged = true
 			case *ssa.Phi:
-				if isRangeIndex(x) {
+				if isRangeIndexPhi(x) {
 					ranged = true
 				}
 			}
